@@ -204,6 +204,8 @@ def _classify(output, generated_names):
             continue
         full = m.group(1)
         fname = os.path.basename(full)
+        if fname == 'glue.cc' and re.search(r"no member named '(Provides|Requires|Get|FinalConstruct|Locator)\w*' in '", line):
+            return 'generated'   # the shell lacks a public member every user relies on (accessor per exposed port, ...)
         if full.startswith('/usr/') or '/include/c++/' in full or '/lib/' in full:
             for follow in lines[i + 1:]:
                 m2 = pos.match(follow.strip())
